@@ -402,6 +402,75 @@ def sym_duplicate_func(vc):
             expect_no_raise_or_same(vc, fk, paths)
 
 
+def sym_sources_package(vc):
+    """sources.process_datapackage -- BOUNDED STRUCTURE (one existing resource, two sources with one resource each; concrete names:
+    all three auto-named res_1, all different, the second source colliding): the source streams are opened IN THIS CALL (per run, not
+    when the step was built); the existing resource keeps its place and name; the sources' resources are appended in order; the
+    names of the combined package are pairwise distinct (C02), a name that is free is kept, and a renamed resource's auto-generated
+    path is renamed with it; a second run opens the streams again"""
+    from pyvc.api import real_function, check, cover, Opaque, PyDict, PyList, UFunc
+    fk = vc.under_contract(P + 'sources.py', ['sources', 'process_datapackage'])
+    vc.under_contract(P + 'sources.py', ['sources', '__init__'])
+    vc.bounded_label = 'sources package phase'
+    vc.bounded_notes.append('sources.process_datapackage: 1 existing resource, 2 sources with 1 resource each, concrete names '
+                            '(colliding / distinct / second colliding)')
+    for label, given in (('colliding', ('res_1', 'res_1', 'res_1')), ('distinct', ('first', 'cities', 'countries')),
+                         ('second-collides', ('res_1', 'cities', 'res_1'))):
+        def thunk(it, label=label, given=given):
+            m = it.module('dataflows.processors.sources')
+            SRC = m.attrs['sources']
+            opened = []
+            specs = [Opaque('spec', 'source_spec_a'), Opaque('spec', 'source_spec_b')]
+            descs = {}
+
+            def FlowStub(it_, a, k):
+                i = specs.index(a[0])
+                f = Opaque('Flow', 'subflow%d' % i)
+
+                def datastream(it2, o, a2, k2):
+                    ds = Opaque('DataStream', 'ds%d' % i)
+                    dp = Opaque('Package', 'sdp%d' % i)
+                    rl = PyList([PyDict({'name': given[i + 1], 'path': given[i + 1] + '.csv', 'schema': PyDict({'fields': PyList([])})})])
+                    descs[i] = rl
+                    dp.attrs['descriptor'] = PyDict({'resources': rl, 'profile': 'data-package'})
+                    ds.attrs['dp'] = dp
+                    opened.append(i)
+                    return ds
+                f.attrs['call:datastream'] = datastream
+                return f
+            m.attrs['Flow'] = UFunc('Flow', FlowStub, False)
+            s = it.call(SRC, specs)
+            check(it, 'no-source-stream-is-opened-when-the-step-is-built[%s]' % label, not opened)
+            existing = [PyDict({'name': given[0], 'path': 'x.csv'})]
+            dp = Opaque('Package', 'dp')
+            dp.attrs['descriptor'] = PyDict({'resources': PyList(list(existing))})
+            dp.attrs['call:commit'] = lambda it_, o, a, k: None
+            it.call(it.lib.getattr_(it, s, 'process_datapackage'), [dp])
+            check(it, 'every-source-stream-opened-in-this-call-in-order[%s]' % label, opened == [0, 1])
+            res = dp.attrs['descriptor'].d['resources']
+            ok = isinstance(res, PyList) and len(res.items) == 3 and res.items[0] is existing[0] and \
+                res.items[1] is descs[0].items[0] and res.items[2] is descs[1].items[0]
+            check(it, 'existing-resource-first-then-the-sources-resources-in-order[%s]' % label, ok)
+            if ok:
+                nm = [r.d['name'] for r in res.items]
+                check(it, 'existing-name-kept[%s]' % label, nm[0] == given[0])
+                check(it, 'all-names-pairwise-distinct[%s]' % label, all(isinstance(x, str) for x in nm) and len(set(nm)) == 3)
+                if all(isinstance(x, str) for x in nm):
+                    for j in (1, 2):
+                        check(it, 'auto-generated-path-follows-the-name[%s,%d]' % (label, j), res.items[j].d['path'] == nm[j] + '.csv')
+                        if given[j] not in nm[:j]:
+                            check(it, 'a-name-that-is-free-is-kept[%s,%d]' % (label, j), nm[j] == given[j])
+            # a second run opens the streams again (the first run consumed them)
+            dp2 = Opaque('Package', 'dp_second_run')
+            dp2.attrs['descriptor'] = PyDict({'resources': PyList([])})
+            dp2.attrs['call:commit'] = lambda it_, o, a, k: None
+            it.call(it.lib.getattr_(it, s, 'process_datapackage'), [dp2])
+            check(it, 'a-second-run-opens-the-source-streams-again[%s]' % label, opened == [0, 1, 0, 1])
+            cover(it, 'reachable[%s]' % label)
+        vc.explore(fk, thunk)
+    vc.bounded_label = None
+
+
 def sym_appenders(vc):
     """iterable_loader / sources / load .process_resources: first every upstream stream through the default per-resource
     pass-through (yield from super().process_resources(resources)), then the new streams, in order"""
@@ -792,6 +861,7 @@ ITEMS = [
     Item('delete_resource.func', K10.sym_delete_resource, [], P + 'delete_resource.py::delete_resource.func'),
     Item('appenders', sym_appenders, [], 'dataflows/helpers/iterable_loader.py::iterable_loader.process_resources'),
     Item('pipelines', None, [('whole-resource-steps', K10.nat_whole_resource_steps), ('conservation', nat_restructure), ('concatenate-in-place', nat_concatenate_in_place), ('concatenate-projection', nat_concatenate_projection), ('load-reuse', nat_load_reuse), ('duplicate-aliasing', nat_duplicate_aliasing)], None),
+    Item('sources.package-phase', sym_sources_package, [], P + 'sources.py::sources.process_datapackage'),
     Item('recorded-findings', None, [('bounded', KF.nat_findings_c16)], 'dataflows/processors/sources.py::sources.process_datapackage'),
 ]
 
